@@ -364,8 +364,10 @@ private:
         m_senders_waiting++;
         DEFER(m_senders_waiting--);
 
-        // Wait for a receiver
-        while (!m_closed && m_receivers_waiting == 0 && !m_handoff_ready) {
+        // Wait for a receiver, and for the hand-off slot to be free: another
+        // sender may be in the middle of its own hand-off, and placing a
+        // second value would overwrite (lose) the first one
+        while (!m_closed && (m_receivers_waiting == 0 || m_handoff_ready)) {
             if (timeout.expired()) {
                 delete ptr;
                 errno = ETIMEDOUT;
@@ -386,23 +388,27 @@ private:
         // Place value in handoff slot
         m_handoff_ptr = ptr;
         m_handoff_ready = true;
+        auto seq = m_handoff_seq;
         m_unbuf_recv_cv.notify_one();
 
-        // Wait for receiver to take it
-        while (m_handoff_ready && !m_closed) {
-            if (timeout.expired()) {
-                if (m_handoff_ready) {
-                    delete m_handoff_ptr;
-                    m_handoff_ptr = nullptr;
-                    m_handoff_ready = false;
-                }
-                errno = ETIMEDOUT;
-                return false;
-            }
+        // Wait for a receiver to take *this* value. The slot may hold the
+        // next sender's value by the time we run again, so the slot being
+        // occupied says nothing: m_handoff_seq advances when ours is taken.
+        while (m_handoff_seq == seq && !m_closed) {
+            if (timeout.expired()) break;
             m_unbuf_send_cv.wait(m_unbuf_mutex, timeout);
         }
+        if (m_handoff_seq != seq)
+            return true;
 
-        return !m_closed || !m_handoff_ready;
+        // not taken (timeout or close): withdraw the value, free the slot
+        delete m_handoff_ptr;
+        m_handoff_ptr = nullptr;
+        m_handoff_ready = false;
+        m_handoff_seq++;
+        m_unbuf_send_cv.notify_all();
+        errno = m_closed ? ESHUTDOWN : ETIMEDOUT;
+        return false;
     }
 
     bool unbuffered_recv(T& value, Timeout timeout) {
@@ -411,7 +417,9 @@ private:
         m_receivers_waiting++;
         DEFER(m_receivers_waiting--);
 
-        m_unbuf_send_cv.notify_one();
+        // senders wait on the same condition variable in two different phases
+        // (for a receiver / for their value to be taken): wake all of them
+        m_unbuf_send_cv.notify_all();
 
         // Wait for handoff
         while (!m_handoff_ready && !m_closed) {
@@ -419,21 +427,30 @@ private:
                 errno = ETIMEDOUT;
                 return false;
             }
-            if (m_unbuf_recv_cv.wait(m_unbuf_mutex, timeout) < 0 && errno == ETIMEDOUT) {
+            // a value placed for us while the timeout fired must still be
+            // taken: its sender has been counting on this receiver
+            if (m_unbuf_recv_cv.wait(m_unbuf_mutex, timeout) < 0 &&
+                errno == ETIMEDOUT && !m_handoff_ready) {
                 return false;
             }
         }
 
         if (m_handoff_ready) {
-            value = std::move(*m_handoff_ptr);
-            delete m_handoff_ptr;
-            m_handoff_ptr = nullptr;
-            m_handoff_ready = false;
-            m_unbuf_send_cv.notify_one();
+            take_handoff(value);
             return true;
         }
 
         return false;
+    }
+
+    // with m_unbuf_mutex held and m_handoff_ready
+    void take_handoff(T& value) {
+        value = std::move(*m_handoff_ptr);
+        delete m_handoff_ptr;
+        m_handoff_ptr = nullptr;
+        m_handoff_ready = false;
+        m_handoff_seq++;
+        m_unbuf_send_cv.notify_all();
     }
 
     bool unbuffered_try_send(T* ptr) {
@@ -458,11 +475,7 @@ private:
         SCOPED_LOCK(m_unbuf_mutex);
 
         if (m_handoff_ready) {
-            value = std::move(*m_handoff_ptr);
-            delete m_handoff_ptr;
-            m_handoff_ptr = nullptr;
-            m_handoff_ready = false;
-            m_unbuf_send_cv.notify_one();
+            take_handoff(value);
             return true;
         }
         return false;
@@ -510,6 +523,7 @@ private:
     // For unbuffered channels: mutex-based handoff
     T* m_handoff_ptr;
     bool m_handoff_ready;
+    uint64_t m_handoff_seq = 0;     // advances whenever the slot is emptied
     mutex m_unbuf_mutex;
     condition_variable m_unbuf_send_cv;
     condition_variable m_unbuf_recv_cv;
